@@ -33,6 +33,11 @@ def lattice(tier, group):
         jobs.append(dict(maxiter=2, maxfun=maxfun, maxls=1, ftol="sym", ftarget_kind="float", callback_kind=cb, ls_mode="lean", maxcor=1))
     jobs.append(dict(maxiter=4, maxfun=6, maxls=1, ftol="sym", callback_kind="choose", checkpoint=1, ck_nit=2, ck_nfev=3, ck_pairs=2,
                      ls_mode="lean", maxcor=2))
+    # two iterations after a restart WITH history and several trials per line search: a failed line search
+    # followed by a memory reset and another line search inside a small evaluation budget
+    for maxfun in (4, 5, 6):
+        jobs.append(dict(maxiter=4, maxfun=maxfun, maxls=2, ftol=0.0, checkpoint=1, ck_nit=2, ck_nfev=3, ck_pairs=1,
+                         ls_mode="contract", ls_tmax=2, maxcor=2))
     if tier != "quick":
         jobs.append(dict(maxiter=3, maxfun=6, maxls=1, ftol="sym", ftarget_kind="float", callback_kind="choose", ls_mode="lean", maxcor=2))
         jobs.append(dict(maxiter=2, maxfun=5, maxls=2, ftol="sym", ftarget_kind="float", callback_kind="choose", ls_mode="contract", ls_tmax=2, maxcor=2))
@@ -68,6 +73,9 @@ def confirm(chk, ex, pid):
         cases = [scenario_case(ex.params, c["model"]) for c in cands]
         # also the scenario with practical tolerances
         cases.append(dict(cases[0], ftol=0.0, gtol=1e-8))
+        if name in ("C04.nfev_within_budget", "C04.nit_within_budget", "C04.eval_message_true", "C04.iter_message_true", "C03.objective_never_increases",
+                    "C05.nfev_equals_calls", "C05.njev_equals_calls"):
+            cases.append(dict(cases[0], ftol=0.0, gtol=1e-8, sweep=1))
         res = realrun(cases)
         hit = False
         for case, r in zip(cases, res):
@@ -77,9 +85,11 @@ def confirm(chk, ex, pid):
                 v = run.get("violated") or {}
                 if name in v or (name == "no_exception" and "no_exception" in v):
                     hit = True
+                    cfgd = {k: case[k] for k in ("maxiter", "maxfun", "maxls", "maxcor", "ftol", "gtol") if k in case}
+                    cfgd.update(run.get("config") or {})
                     what = "minimize_lbfgsb on %s with %s%s: %s" % (
-                        run["problem"], {k: case[k] for k in ("maxiter", "maxfun", "maxls", "maxcor", "ftol", "gtol") if k in case},
-                        (", restart from a checkpoint with nit=%d" % case["ck_nit"]) if case.get("checkpoint") else "", v[name])
+                        run["problem"], cfgd,
+                        (", restart from a checkpoint with nit=%d" % case["ck_nit"]) if run.get("restart", case.get("checkpoint")) else "", v[name])
                     chk.violation("%s" % name.replace(".", ":"), what, dict(case=case, real=run))
                     break
             if hit:
